@@ -384,8 +384,8 @@ example : ((({} : PQ).push 10 3).push 11 (-2)).pop.map (·.1.val) = some 11 := b
 
 /-- **The real `heap.Pop` agrees with "pop = least"**: run on a `priorityQueueHeap` slice that is in
     heap order, container/heap's `Pop` (swap, sift down, cut) returns an item that no queued item
-    precedes, keeps all other items, and leaves the slice in heap order.
-    (That `heap.Push` keeps the heap order is not proved here; it is covered by the correspondence.) -/
+    precedes, keeps all other items, and leaves the slice in heap order
+    (`heap_push_keeps_order` is the matching statement for `heap.Push`). -/
 theorem heap_pop_is_min (l l' : List Item) (x : Item) (hok : Heap.Ok Item.lt l l.length 0)
     (hp : Heap.pop Item.lt l = some (x, l')) :
     (∀ y ∈ l, y.lt x = false) ∧ (x :: l').Perm l ∧ Heap.Ok Item.lt l' l'.length 0 :=
@@ -394,6 +394,27 @@ theorem heap_pop_is_min (l l' : List Item) (x : Item) (hok : Heap.Ok Item.lt l l
 
 example : (Heap.pop Item.lt (Heap.push Item.lt (Heap.push Item.lt (Heap.push Item.lt [] ⟨3, 0, 10⟩) ⟨0, 1, 11⟩) ⟨0, 2, 12⟩)).map
     (fun r => (r.1.val, r.2.map (·.val))) = some (11, [12, 10]) := by decide
+
+/-! ### priority numbers below 0 -/
+
+/-- for a monitor priority ≥ 0 the queue orders by exactly that number … -/
+theorem push_keeps_nonneg_priority (q : PQ) (val : Nat) (prio : Int) (h : 0 ≤ prio) :
+    (q.push val prio).items = q.items ++ [{ prio := prio, seq := q.counter, val := val }] := by
+  unfold PQ.push
+  have : ¬ prio < 0 := by omega
+  simp [this]
+
+/-- **Declared deviation (negative witness).** … but a negative monitor priority is clamped to 0 by
+    `PriorityQueue.Push` ("Highest priority is 0 we can't go higher"): an event queued with
+    priority number 0 is taken *before* a later event with priority number −2, although −2 is the
+    lower number; the root monitor does not clamp and reports −2 meanwhile. `pop_is_min`,
+    `no_overtaking`, `real_pop_is_min` speak about the clamped number (`Item.prio`); they state the
+    property's "lowest priority number" only for monitor priorities ≥ 0. Not reachable from ECAL
+    code: the interpreter creates child monitors with `NewChildMonitor(0)` only. -/
+theorem queue_clamps_negative_priorities :
+    ((({} : PQ).push 10 0).push 11 (-2)).pop.map (·.1.val) = some 10 ∧
+    (Book.run Book.current {} [.newChild 0, .activate 1, .newChild (-2), .activate 2]).map
+      Book.highestPriority = some (-2) := by decide
 
 /-! ### the real heap implements the abstract queue -/
 
